@@ -172,6 +172,16 @@ func c07chainTemplates() []c07tmpl {
 	} {
 		ts = append(ts, c07tmpl{name: "native callback: " + cb.name, text: cb.text})
 	}
+	// ranges over user objects: the steps (`_incBy`) and comparisons (`<=>`) the range asks of its bounds are calls
+	// like any other — what they raise reaches the caller and is not kept as the range's next element
+	for _, hook := range []struct{ name, obj string }{
+		{"_incBy", "{_incBy: m{|s| [{|| «0:int»}, {|| «1:int»}, {|| «2:int»}][.n](); .bear({n: .n + s})}, '<=>: m{|o| .n <=> o.n}, n: 0}"},
+		{"<=>", "{_incBy: m{|s| .bear({n: .n + s})}, '<=>: m{|o| [{|| «0:int»}, {|| «1:int»}, {|| «2:int»}, {|| 1}][.n](); .n <=> o.n}, n: 0}"},
+	} {
+		for _, use := range []struct{ name, sfx string }{{"A", ".A"}, {"list chain", "@{|x| x.n}"}, {"reduce chain", "$(0){|a, x| a + x.n}"}, {"next x4", "._iter.{|it| [it.next, it.next, it.next, it.next]}"}, {"len", ".A.len"}} {
+			ts = append(ts, c07tmpl{name: "range over user objects, " + hook.name + " raises: " + use.name, text: "(" + hook.obj + ":{n: 3})" + use.sfx})
+		}
+	}
 	ts = append(ts, c07tmpl{name: "iterator argument of chain", text: "[9].chain(" + itr + ").A"})
 	ts = append(ts, c07tmpl{name: "iterator argument of zip", text: "[7, 8, 9].zip(" + itr + ").A"})
 	ts = append(ts, c07tmpl{name: "raising callback of lazyMap through chain", text: "[0].chain([1, 2, 3].lazyMap {|x| [«0:int», «1:int», «2:int»][x - 1]; x}).A", noFault: map[int]bool{}})
@@ -408,7 +418,7 @@ func runC07(w *fw.W) {
 		holes := c07holes(t.text)
 		for _, h := range holes {
 			for _, rz := range raisers {
-				if rz.fn == "RS" && (strings.Contains(t.text, "<{") || strings.Contains(t.text, "yield") || strings.Contains(t.name, "native callback") || strings.Contains(t.name, "Iterable#") || strings.Contains(t.text, "lazyMap")) {
+				if rz.fn == "RS" && (strings.Contains(t.text, "<{") || strings.Contains(t.text, "yield") || strings.Contains(t.name, "native callback") || strings.Contains(t.name, "Iterable#") || strings.Contains(t.text, "lazyMap") || strings.Contains(t.name, "range over user objects")) {
 					// inside an iterator (or a library loop built on one) an error of the kind StopIterErr means "exhausted"
 					continue
 				}
